@@ -14,7 +14,7 @@
    KEq   Real64 run vs Float64 run of a routine without a closed model: same values.
    KJac / KHes  the Jacobian / Hessian helpers on a catalogue of functions. *)
 From Coq Require Import List Bool Arith ZArith QArith Qabs Floats.
-From ADV Require Import Base.Num Base.Corr C06.Model C06.Model32 C06.ModelOpt.
+From ADV Require Import Base.Num Base.Corr C06.Model C06.Model32 C06.ModelOpt C06.ModelHelp.
 Import ListNotations.
 Local Open Scope nat_scope.
 
@@ -123,7 +123,19 @@ Inductive kase :=
 | KOD (w : nat) (z : bool) (r o : nat) (d : list nat) (k ord : nat) (sq : bool) (sp : list (option nat * float))
       (out : option (list slot))
 (* the dispatch table extracted from the Go source *)
-| KDisp (r : nat) (rows : list srow).
+| KDisp (r : nat) (rows : list srow)
+(* round 6: the Jacobian / Hessian helpers as machines (ModelHelp.hexec on the statement lists of the source).
+   which: 0 Jacobian / 1 Hessian; sparse: receiver kind; x32: the caller's vector is Real32; r32b: the receiver
+   stores binary32; sq: a Sqrt on the data path (Hessian entries then through the tolerance); ts: the supplied
+   function; rn rm r0: the receiver before the call; xarg: the caller's vector before the call (value, N, Order,
+   gradient, Hessian of every entry); out: None = panic, Some (rows, cols, entries after the call);
+   clean: every derivative slot of every receiver entry read zero; intact: the caller's vector was bit for bit
+   what it was (the machine never writes it) *)
+| KHM (which : nat) (sparse x32 r32b sq : bool) (ts : list texpr) (rn rm : nat) (r0 : list (list float))
+      (xarg : list (msc float)) (out : option (nat * nat * list (list float))) (clean intact : bool)
+(* the statement list the translator produced from the source, the number of element-type copies of the
+   function and the number of copies that are the Real64 text *)
+| KHSrc (which : nat) (sparse : bool) (prog : list hstmt) (copies agree : nat).
 
 (* Float32: math.Sqrt rounded once (SQRT of cholesky_float32; the generic routines on Float32 scalars go
    through Scalar.Sqrt = Pow(x, 0.5) as well, but the Cholesky family is the only square root reached on
@@ -256,6 +268,22 @@ Definition check (c : kase) : bool :=
       | _, _ => false
       end
   | KDisp r rows => leqb srow_eqb rows (src_table r) && negb (length rows =? 0)
+  | KHM which sparse x32 r32b sq ts rn rm r0 xarg out clean intact =>
+      let XJ := if x32 then NumXJS NumDFg r32 else NumXJ NumDFg in
+      let LJ := if x32 then jlogS NumDFg r32 else jlog NumDFg in
+      let st := if r32b then r32 else (fun v => v) in
+      clean && intact
+      && (if x32 then forallb (fun a => is32 (mv a)) xarg else true)
+      && match helper_run NumDFg XJ LJ st (vf_of ts) which sparse rn rm r0 xarg, out with
+         | HPanic, None => true
+         | HOk M xa, Some (n, m, M') =>
+             let tol := ((if x32 || r32b then Qmake 1 8192 else Qmake 1 67108864) * (1 + qmaxabs (concat M')))%Q in
+             (length M =? n) && forallb (fun row => length row =? m) M
+             && list_eqb (list_eqb (if sq && (which =? 1) then closeb tol else feqb)) M M'
+         | _, _ => false
+         end
+  | KHSrc which sparse prog copies agree =>
+      hprog_eqb prog (src_helper which sparse) && (copies =? agree) && (9 <=? copies)
   | KEq _ a b => list_eqb veqb a b
   | KF kind n sym tol vals aux grads => formula_ok kind n sym tol vals aux grads
   | KJac fid x jac xord =>
